@@ -1,10 +1,13 @@
 import Spine.Header
+import Spine.RobThm
 import Spine.Wedge
 import Spine.Dispatch
 /-!
 # C05 — no inbound byte sequence can crash or wedge the stack
 
-Property theorems only (lemmas: `Spine/Header.lean`, `Spine/Wedge.lean`, `Spine/DiscoveryThm.lean`).
+Property theorems only (lemmas: `Spine/Header.lean`, `Spine/RobThm.lean`, `Spine/Wedge.lean`, `Spine/DiscoveryThm.lean`).
+"As written" = the pinned commit a1767d0 (tree of 5099313 plus the add-only hooks) = every flag of a family `false`;
+"repaired" = the `fix:` commits of /repo = every flag `true`; the harness probes which member the tree under test is.
 
 What is a theorem here and what is not:
 
@@ -15,16 +18,34 @@ What is a theorem here and what is not:
   (`c05_hdr_family`), totality of every member that has the three guards (`c05_hdr_total`), and that each guard
   is needed (`c05_hdr_each_guard_needed`). *Refuted* for the code as written: totality
   (`c05_hdr_total_refuted`, one witness per site).
+* **Discovery layer** and **request-body layer** (`Spine.Rob`: reply / notification handlers down to
+  `AddEntityAndFeatures`, `unmarshalFeature`, `NewEntity`, `SetOperations`, `CreateFunctionData`; the four
+  node-management call handlers and the four manager functions behind them; over abstract payloads in which every
+  dereferenced part is optional; tied to the real code on the exhaustive single-position grid of 14 580 mutants
+  on every run, and once on the pinned commit, where the as-written member predicted the site of every one of
+  the 1 926 panicking grid points, `evidence/C05-layer-tie-pinned-a1767d0.json`). *Proved*: for every member
+  exactly which payloads panic at which site (`c05_disc_characterisation`, `c05_req_characterisation`, flat
+  as-written forms `c05_disc_feature_asWritten`, `c05_disc_entity_asWritten`), the repaired members panic on
+  nothing (`c05_disc_total`, `c05_req_total`), each guard is needed (`c05_disc_each_guard_needed`,
+  `c05_req_each_guard_needed`). *Refuted* for the code as written: totality (`c05_disc_total_refuted`,
+  `c05_req_total_refuted`, one witness per catalogued site).
+* **Composition** `c05_total_partial`: with the repaired members, `Spine.Rob.handle` (header layer, then the layer
+  of the payload, then the answer through the sender) panics on no abstract datagram whose payload is a
+  detailed-discovery read / reply / notification or one of the four subscription / binding calls addressed to
+  node management, or that the header layer already decides.
 * **Still serves** (`Spine.Disc` remote tree + `Spine.Disp.processCmd`). *Proved*: a discovery read is answered
   with exactly one reply iff the peer's node-management feature is still known (`c05_still_serves`,
   `c05_wedged_is_silent`). The invariant `c05_nm_present` is *refuted* for the code as written by three witnesses
   (`c05_nm_present_refuted`), holds on the region `c05_nm_present_partial`, and is *proved* for the member with
   the two guards (`c05_nm_present`).
-* **Not a theorem**: panic freedom below the header layer (discovery descriptions, request bodies, selectors,
-  function tables) is explored by the structured mutator of the harness (monitor), and totality over *all byte
-  strings* rests on assumption A-json (`encoding/json` returns an error instead of panicking); `c05_total` for the
-  whole handler is the target after the repairs, it is not stated here because the model below the header
-  layer is not an `Except PanicSite` model yet.
+* **Not a theorem here** (`Res.outside` of `handle`): payloads handled by the generic feature layer and the update
+  engine (read / reply / notify / write of function data with filters: the model of C02 / C04, whose repaired
+  member is total at the two sites the mutator found there — `Spine.Props.C02.c02_repaired_selectormatch_never_panics`,
+  `c02_repaired_selectors_total`), result, use-case and destination-list data, subscription / binding data calls,
+  datagrams to other local features; the cleanup after an entity removal (registries, caches); `period.Parse`
+  (A-period); and the step from bytes to the abstract datagram: `encoding/json` returns an error instead of
+  panicking (A-json) and the abstraction function of the harness (`robAbstract`) is trusted. There the claim stays
+  the monitor's (structured mutator, byte stream).
 -/
 namespace Spine.Props.C05
 open Spine
@@ -99,6 +120,264 @@ theorem c05_hdr_each_guard_needed :
   ⟨⟨{ okRead with dst := none }, "FeatureByAddress(nil destination)", by decide⟩,
    ⟨{ okRead with filterWithoutCmdControl := true }, "ExtractFilter(nil cmdControl)", by decide⟩,
    ⟨{ okRead with cls := some .reply }, "PrintMessageOverview(nil reference)", by decide⟩⟩
+
+/-! ## discovery layer -/
+
+/-- a well-formed feature element of entity `[1]` with one supported function -/
+def okFeat : Rob.Feat :=
+  { description := true, featureAddress := true, entity := some [1], feature := some 1, ftype := some .known, role := true,
+    fns := [{ function := true, ops := true }] }
+
+/-- a well-formed entry for the new entity `[1]` -/
+def okEnt : Rob.Ent :=
+  { description := true, entityAddress := true, entity := some [1], etype := true, chg := none, devMismatch := false }
+
+/-- a well-formed discovery payload announcing entity `[1]` with one feature -/
+def okPayload : Rob.Payload := { deviceInformation := true, deviceDescription := true, ents := [okEnt], feats := [okFeat] }
+
+/-- C05, discovery layer, every member of the family (as written = all flags off): exactly which payloads panic
+    at which site. From the message down: the reply handler; the notification handler (the first entry that does
+    not simply go on decides; only an `added` entry can panic, through `AddEntityAndFeatures`);
+    `AddEntityAndFeatures` over a list of entries (first entry that does not go on); one entry; the feature loop
+    (first offending element); one feature element; `unmarshalFeature` + `NewFeatureRemote`; `SetOperations`. -/
+theorem c05_disc_characterisation (c : Rob.DCfg) :
+    (∀ known p s, Rob.reply c known p = .panic s ↔
+        (p.deviceInformation = false ∧ c.devInfo = false ∧ s = .replyDeviceInformation) ∨
+        (p.deviceInformation = true ∧ p.deviceDescription = true ∧ Rob.entLoop c true p.feats p.ents known = .panic s)) ∧
+    (∀ known p s, Rob.notifyPartial c known p = .panic s ↔
+        ∃ pre e post k, p.ents = pre ++ e :: post ∧ Rob.notifyLoop c p.ents p.feats pre known = .next k ∧
+          Rob.notifyStep c p.ents p.feats k e = .panic s) ∧
+    (∀ all feats known e s, Rob.notifyStep c all feats known e = .panic s ↔
+        e.description = true ∧ e.entityAddress = true ∧ e.chg = some .added ∧
+          Rob.entLoop c false feats (if c.perEntry then [e] else all) known = .panic s) ∧
+    (∀ initial feats ents known s, Rob.entLoop c initial feats ents known = .panic s ↔
+        ∃ pre e post k, ents = pre ++ e :: post ∧ Rob.entLoop c initial feats pre known = .next k ∧
+          Rob.entStep c initial feats k e = .panic s) ∧
+    (∀ initial feats known e s, Rob.entStep c initial feats known e = .panic s ↔
+        ∃ l, Rob.checkEnt c initial e = some l ∧
+          ((known.contains l = true ∧ Rob.featLoop c (some l) feats = some s) ∨
+           (known.contains l = false ∧ e.etype = false ∧ c.descr = false ∧ s = .addEntityAndFeatures) ∨
+           (known.contains l = false ∧ e.etype = true ∧ l = [] ∧ s = .newEntity) ∨
+           (known.contains l = false ∧ e.etype = true ∧ l ≠ [] ∧ Rob.featLoop c (some l) feats = some s))) ∧
+    (∀ a feats s, Rob.featLoop c a feats = some s ↔
+        ∃ pre f post, feats = pre ++ f :: post ∧ (∀ g ∈ pre, Rob.featStep c a g = none) ∧ Rob.featStep c a f = some s) ∧
+    (∀ a f s, Rob.featStep c a f = some s ↔
+        ((f.description = false ∨ f.featureAddress = false) ∧ c.descr = false ∧ s = .addEntityAndFeatures) ∨
+        (f.description = true ∧ f.featureAddress = true ∧ f.entity = a ∧ Rob.unmarshal c f = some s)) ∧
+    (∀ f s, Rob.unmarshal c f = some s ↔
+        f.description = true ∧
+          ((f.missing ∧ c.descr = false ∧ s = .unmarshalFeature) ∨
+           (¬ f.missing ∧ f.ftype = some .unknown ∧ c.unkType = false ∧ s = .createFunctionData) ∨
+           (¬ f.missing ∧ ¬ (f.ftype = some .unknown ∧ c.unkType = false) ∧ Rob.setOps c f.fns = some s))) ∧
+    (∀ fns s, Rob.setOps c fns = some s ↔
+        s = .setOperations ∧ c.fnNil = false ∧ ∃ fn ∈ fns, fn.ops = true ∧ fn.function = false) :=
+  ⟨Rob.reply_iff c, Rob.notifyPartial_iff c, Rob.notifyStep_iff c, Rob.entLoop_iff c, Rob.entStep_iff c,
+   fun a feats s => Rob.featLoop_iff c a s feats, Rob.featStep_iff c, Rob.unmarshal_iff c, Rob.setOps_iff c⟩
+
+/-- non-vacuity: the well-formed payload is accepted by the code as written, and it is accepted because nothing is
+    missing — dropping the role of its feature panics -/
+example : Rob.reply .asWritten [[0]] okPayload = .done ∧
+    Rob.reply .asWritten [[0]] { okPayload with feats := [{ okFeat with role := false }] } = .panic .unmarshalFeature := by
+  decide
+
+/-- the same, flat, for the code as written: one feature element of the entity with address `a` panics iff
+    it lacks its description or address (`AddEntityAndFeatures`); or, belonging to the entity, lacks feature id,
+    type or role (`unmarshalFeature`); or names a type without function table (`CreateFunctionData`); or carries a
+    supportedFunction element with possibleOperations but without function (`SetOperations`). -/
+theorem c05_disc_feature_asWritten (a : Option (List Nat)) (f : Rob.Feat) (s : Rob.Site) :
+    Rob.featStep .asWritten a f = some s ↔
+      ((f.description = false ∨ f.featureAddress = false) ∧ s = .addEntityAndFeatures) ∨
+      (f.description = true ∧ f.featureAddress = true ∧ f.entity = a ∧
+        (((f.feature = none ∨ f.ftype = none ∨ f.role = false) ∧ s = .unmarshalFeature) ∨
+         (f.feature ≠ none ∧ f.role = true ∧ f.ftype = some .unknown ∧ s = .createFunctionData) ∨
+         (f.feature ≠ none ∧ f.role = true ∧ f.ftype = some .known ∧
+            (∃ fn ∈ f.fns, fn.ops = true ∧ fn.function = false) ∧ s = .setOperations))) := by
+  rw [Rob.featStep_iff, Rob.unmarshal_iff, Rob.setOps_iff]
+  simp only [Rob.DCfg.asWritten, Rob.Feat.missing, true_and]
+  cases hd : f.description <;> cases ha : f.featureAddress <;> cases hf : f.feature <;> cases ht : f.ftype <;>
+    cases hr : f.role <;> simp <;> (try (rename_i t; cases t <;> simp)) <;>
+    (try (constructor <;> intro h <;> simp_all)) <;> (try (intro _; exact and_comm))
+
+/-- … and one entity entry, for the code as written: it must pass `CheckEntityInformation` (description, address,
+    non-nil entity list, no device mismatch unless initial); then a new entity panics without entityType
+    (`AddEntityAndFeatures`) or with the empty address (`NewEntity`); otherwise its feature loop decides. -/
+theorem c05_disc_entity_asWritten (initial : Bool) (feats : List Rob.Feat) (known : List (List Nat)) (e : Rob.Ent)
+    (s : Rob.Site) :
+    Rob.entStep .asWritten initial feats known e = .panic s ↔
+      e.description = true ∧ e.entityAddress = true ∧ ¬ (initial = false ∧ e.devMismatch = true) ∧
+      ∃ l, e.entity = some l ∧
+        ((known.contains l = true ∧ Rob.featLoop .asWritten (some l) feats = some s) ∨
+         (known.contains l = false ∧ e.etype = false ∧ s = .addEntityAndFeatures) ∨
+         (known.contains l = false ∧ e.etype = true ∧ l = [] ∧ s = .newEntity) ∨
+         (known.contains l = false ∧ e.etype = true ∧ l ≠ [] ∧ Rob.featLoop .asWritten (some l) feats = some s)) := by
+  rw [Rob.entStep_iff]
+  constructor
+  · rintro ⟨l, hck, h⟩
+    have hc := (Rob.checkEnt_iff _ initial e l).mp hck
+    refine ⟨hc.1, hc.2.1, hc.2.2.2.2, l, hc.2.2.1, ?_⟩
+    simpa [Rob.DCfg.asWritten] using h
+  · rintro ⟨hd, ha, hm, l, he, h⟩
+    refine ⟨l, (Rob.checkEnt_iff _ initial e l).mpr ⟨hd, ha, he, by simp [Rob.DCfg.asWritten], hm⟩, ?_⟩
+    simpa [Rob.DCfg.asWritten] using h
+
+/-- C05, discovery layer, repaired: a member with the five guards (deviceInformation, description parts, empty
+    entity address, unknown feature type, supportedFunction without function) panics on no payload, in no state of
+    the peer's tree — reply, partial and full notification; whatever `perEntry` and `keep0` are. -/
+theorem c05_disc_total (c : Rob.DCfg) (h : c.Guarded) (known : List (List Nat)) (p : Rob.Payload) :
+    Rob.reply c known p = .done ∧ Rob.notifyPartial c known p = .done ∧ Rob.notifyFull c known p = .done :=
+  ⟨Rob.reply_total c h known p, Rob.notifyPartial_total c h known p, Rob.notifyFull_total c h known p⟩
+
+/-- non-vacuity: the repaired member is `Guarded`, and a full notification is not a no-op for the model (the diff
+    against the tree turns the unknown entity into an `added` entry and synthesises a `removed` one) -/
+example : Rob.DCfg.repaired.Guarded ∧
+    (Rob.fullDiff [[0], [2]] { okPayload with ents := [okEnt, { okEnt with entity := some [0] }] }).ents.map (·.chg)
+      = [some .added, some .removed] := by
+  refine ⟨⟨rfl, rfl, rfl, rfl, rfl⟩, by decide⟩
+
+/-- REFUTED on the code as written (pinned commit; the six discovery keys of the harness): totality of the
+    discovery layer — one witness per catalogued site, each a single-position mutant of the well-formed payload. -/
+theorem c05_disc_total_refuted :
+    Rob.reply .asWritten [[0]] { okPayload with deviceInformation := false } = .panic .replyDeviceInformation ∧
+    Rob.reply .asWritten [[0]] { okPayload with ents := [{ okEnt with etype := false }] } = .panic .addEntityAndFeatures ∧
+    Rob.reply .asWritten [[0]] { okPayload with feats := [{ okFeat with description := false }] } = .panic .addEntityAndFeatures ∧
+    Rob.reply .asWritten [[0]] { okPayload with ents := [{ okEnt with entity := some [] }] } = .panic .newEntity ∧
+    Rob.reply .asWritten [[0]] { okPayload with feats := [{ okFeat with feature := none }] } = .panic .unmarshalFeature ∧
+    Rob.reply .asWritten [[0]] { okPayload with feats := [{ okFeat with ftype := some .unknown }] } = .panic .createFunctionData ∧
+    Rob.reply .asWritten [[0]] { okPayload with feats := [{ okFeat with fns := [{ function := false, ops := true }] }] }
+      = .panic .setOperations ∧
+    Rob.notifyPartial .asWritten [[0]] { okPayload with ents := [{ okEnt with chg := some .added, etype := false }] }
+      = .panic .addEntityAndFeatures ∧
+    Rob.notifyFull .asWritten [[0]] { okPayload with ents := [{ okEnt with etype := false }] } = .panic .addEntityAndFeatures := by
+  decide
+
+/-- each of the five guards is needed: with the other four (and both tree-shaping repairs) in place, leaving one
+    out still admits a panic -/
+theorem c05_disc_each_guard_needed :
+    Rob.reply ⟨false, true, true, true, true, true, true⟩ [[0]] { okPayload with deviceInformation := false } = .panic .replyDeviceInformation ∧
+    Rob.reply ⟨true, false, true, true, true, true, true⟩ [[0]] { okPayload with ents := [{ okEnt with etype := false }] } = .panic .addEntityAndFeatures ∧
+    Rob.reply ⟨true, true, false, true, true, true, true⟩ [[0]] { okPayload with ents := [{ okEnt with entity := some [] }] } = .panic .newEntity ∧
+    Rob.reply ⟨true, true, true, false, true, true, true⟩ [[0]] { okPayload with feats := [{ okFeat with ftype := some .unknown }] } = .panic .createFunctionData ∧
+    Rob.reply ⟨true, true, true, true, false, true, true⟩ [[0]] { okPayload with feats := [{ okFeat with fns := [{ function := false, ops := true }] }] } = .panic .setOperations := by
+  decide
+
+/-! ## request-body layer -/
+
+/-- a valid subscription request from a discovered peer -/
+def okReq : Rob.Req :=
+  { kind := .subRequest, body := true, serverAddr := true, serverFound := true, sft := true, serverOk := true, bound := false,
+    clientAddr := true, clientFound := true, devKnown := true }
+
+/-- C05, request-body layer, every member of the family (as written = all flags off): exactly which subscription /
+    binding request and delete calls panic at which site — no inner element (the call handler); request calls:
+    no serverAddress (`DeviceLocal.FeatureByAddress`), subscription without serverFeatureType (`AddSubscription`),
+    no clientAddress (`DeviceRemote.FeatureByAddress`), unknown client feature while the peer's device address is
+    unknown (the manager function, in its error text); delete calls: no clientAddress (the manager function),
+    unknown client feature while the device address is unknown, no serverAddress. -/
+theorem c05_req_characterisation (c : Rob.RCfg) (r : Rob.Req) (s : Rob.Site) :
+    Rob.request c r = .panic s ↔
+      (r.body = false ∧ c.body = false ∧ s = Rob.bodySite r.kind) ∨
+      (r.body = true ∧ (r.kind = .subRequest ∨ r.kind = .bindRequest) ∧
+        ((r.serverAddr = false ∧ c.fba = false ∧ s = .featureByAddressLocal) ∨
+         (r.serverAddr = true ∧ r.serverFound = true ∧ r.sft = false ∧ r.kind = .subRequest ∧ c.sft = false ∧
+            s = .addSubscription) ∨
+         (r.serverAddr = true ∧ r.serverFound = true ∧ r.sft = true ∧ r.serverOk = true ∧
+            ¬ (r.kind = .bindRequest ∧ r.bound = true) ∧
+            ((r.clientAddr = false ∧ c.fba = false ∧ s = .featureByAddressRemote) ∨
+             (r.clientAddr = true ∧ r.clientFound = false ∧ r.devKnown = false ∧ c.errTxt = false ∧
+                s = Rob.managerSite r.kind))))) ∨
+      (r.body = true ∧ (r.kind = .subDelete ∨ r.kind = .bindDelete) ∧
+        ((r.clientAddr = false ∧ c.clientAddr = false ∧ s = Rob.managerSite r.kind) ∨
+         (r.clientAddr = true ∧ r.clientFound = false ∧ r.devKnown = false ∧ c.errTxt = false ∧
+            s = Rob.managerSite r.kind) ∨
+         (r.clientAddr = true ∧ r.clientFound = true ∧ r.serverAddr = false ∧ c.fba = false ∧
+            s = .featureByAddressLocal))) := by
+  rw [Rob.request_iff, Rob.addReq_iff, Rob.delReq_iff, Rob.clientLookup_iff]
+  constructor
+  · rintro (h | ⟨hb, hk, h⟩ | ⟨hb, hk, h⟩)
+    · exact Or.inl h
+    · exact Or.inr (Or.inl ⟨hb, hk, h⟩)
+    · refine Or.inr (Or.inr ⟨hb, hk, ?_⟩)
+      rcases h with h | ⟨hca, h | h⟩ | h
+      · exact Or.inl h
+      · rw [hca] at h; simp at h
+      · exact Or.inr (Or.inl h)
+      · exact Or.inr (Or.inr h)
+  · rintro (h | ⟨hb, hk, h⟩ | ⟨hb, hk, h⟩)
+    · exact Or.inl h
+    · exact Or.inr (Or.inl ⟨hb, hk, h⟩)
+    · refine Or.inr (Or.inr ⟨hb, hk, ?_⟩)
+      rcases h with h | h | h
+      · exact Or.inl h
+      · exact Or.inr (Or.inl ⟨h.1, Or.inr h⟩)
+      · exact Or.inr (Or.inr h)
+
+/-- non-vacuity: the valid request is accepted as written; the same valid request before the peer's discovery
+    reply (client feature not announced yet, device address unknown) panics — even a valid call did -/
+example : Rob.request .asWritten okReq = .done ∧
+    Rob.request .asWritten { okReq with clientFound := false, devKnown := false } = .panic .addSubscription := by
+  decide
+
+/-- C05, request-body layer, repaired: no request panics, in either connection state. -/
+theorem c05_req_total (r : Rob.Req) : Rob.request .repaired r = .done := Rob.request_total r
+
+/-- non-vacuity: the repaired member on the requests that crashed the code as written -/
+example : Rob.request .repaired { okReq with body := false } = .done ∧
+    Rob.request .repaired { okReq with kind := .bindDelete, clientAddr := false, devKnown := false } = .done := by
+  decide
+
+/-- REFUTED on the code as written (pinned commit; the ten request keys of the harness): totality of the
+    request-body layer — one witness per catalogued site. -/
+theorem c05_req_total_refuted :
+    Rob.request .asWritten { okReq with body := false } = .panic .subRequestCall ∧
+    Rob.request .asWritten { okReq with kind := .subDelete, body := false } = .panic .subDeleteCall ∧
+    Rob.request .asWritten { okReq with kind := .bindRequest, body := false } = .panic .bindRequestCall ∧
+    Rob.request .asWritten { okReq with kind := .bindDelete, body := false } = .panic .bindDeleteCall ∧
+    Rob.request .asWritten { okReq with serverAddr := false } = .panic .featureByAddressLocal ∧
+    Rob.request .asWritten { okReq with clientAddr := false } = .panic .featureByAddressRemote ∧
+    Rob.request .asWritten { okReq with sft := false } = .panic .addSubscription ∧
+    Rob.request .asWritten { okReq with kind := .subDelete, clientAddr := false } = .panic .removeSubscription ∧
+    Rob.request .asWritten { okReq with kind := .bindRequest, clientFound := false, devKnown := false } = .panic .addBinding ∧
+    Rob.request .asWritten { okReq with kind := .bindDelete, clientFound := false, devKnown := false } = .panic .removeBinding := by
+  decide
+
+/-- each of the five guards is needed -/
+theorem c05_req_each_guard_needed :
+    Rob.request ⟨false, true, true, true, true⟩ { okReq with body := false } = .panic .subRequestCall ∧
+    Rob.request ⟨true, false, true, true, true⟩ { okReq with serverAddr := false } = .panic .featureByAddressLocal ∧
+    Rob.request ⟨true, true, false, true, true⟩ { okReq with clientFound := false, devKnown := false } = .panic .addSubscription ∧
+    Rob.request ⟨true, true, true, false, true⟩ { okReq with sft := false } = .panic .addSubscription ∧
+    Rob.request ⟨true, true, true, true, false⟩ { okReq with kind := .subDelete, clientAddr := false } = .panic .removeSubscription := by
+  decide
+
+/-! ## composition -/
+
+/-- C05, first sentence, for the layers modelled so far: with the header guards, the five discovery guards and the
+    repaired request layer, `handle` — header layer, then the layer the payload belongs to, then the answer written
+    through the sender — panics on no abstract datagram; it either returns (`ok`) or the payload is of a kind
+    these layers do not cover (`outside`, listed in the module comment). -/
+theorem c05_total_partial (hc : Hdr.Cfg) (ha : hc.addr = true) (hf : hc.filter = true) (hp : hc.pmo = true)
+    (dc : Rob.DCfg) (hd : dc.Guarded) (d : Rob.Dgram) :
+    Rob.handle hc dc .repaired d = .ok ∨ Rob.handle hc dc .repaired d = .outside :=
+  Rob.handle_total hc ha hf hp dc hd d
+
+/-- a subscription request without msgCounter whose acknowledgement the stack writes -/
+def okDgram : Rob.Dgram :=
+  { hdr := { okRead with cls := some .call, msgCounter := false, responds := true }, known := [[0]], body := .call okReq }
+
+/-- non-vacuity: `handle` reaches all three stages — as written the datagram above panics while the answer is
+    written, a malformed body panics in its layer before that, a missing destination panics in the header layer;
+    the repaired members return on all three -/
+example :
+    Rob.handle .asWritten .asWritten .asWritten okDgram = .panicHdr "PrintMessageOverview(nil reference, outgoing)" ∧
+    Rob.handle .asWritten .asWritten .asWritten { okDgram with body := .call { okReq with body := false } } = .panic .subRequestCall ∧
+    Rob.handle .asWritten .asWritten .asWritten { okDgram with hdr := { okDgram.hdr with dst := none } }
+      = .panicHdr "FeatureByAddress(nil destination)" ∧
+    Rob.handle .repaired .repaired .repaired okDgram = .ok ∧
+    Rob.handle .repaired .repaired .repaired { okDgram with body := .call { okReq with body := false } } = .ok ∧
+    Rob.handle .repaired .repaired .repaired { okDgram with hdr := { okDgram.hdr with dst := none } } = .ok ∧
+    Rob.handle .repaired .repaired .repaired { okDgram with body := .outside } = .outside := by
+  decide
+
 
 /-! ## still serves -/
 
